@@ -249,6 +249,17 @@ func TestWorker(t *testing.T) {
 		}
 		if hashOnly {
 			out.TraceHash[fmt.Sprintf("%d/%v", spec.Seed, spec.Enum)] = traceHash(res)
+			if envU64("VSIM_SIGDUMP", 0) == spec.Seed {
+				for _, r := range res.Runs {
+					fmt.Fprintln(os.Stderr, "SIG", scheduleSignature(r))
+					for _, l := range r.Trace {
+						fmt.Fprintln(os.Stderr, "SIG", l)
+					}
+				}
+				for _, l := range observedLines(res) {
+					fmt.Fprintln(os.Stderr, "SIG", l)
+				}
+			}
 		}
 		if res.Nontrivial {
 			out.Nontrivial++
@@ -296,6 +307,9 @@ func TestWorker(t *testing.T) {
 
 	// phase 1: enumerated cases
 	plan := enumPlan(prop, tier, seed)
+	if os.Getenv("VSIM_NOENUM") == "1" {
+		plan = nil
+	}
 	out.EnumTotal = len(plan)
 	for i, ec := range plan {
 		if i%nw != w {
@@ -306,6 +320,9 @@ func TestWorker(t *testing.T) {
 		out.EnumCases++
 	}
 	fplan := forcedPlan(prop, tier)
+	if os.Getenv("VSIM_NOENUM") == "1" {
+		fplan = nil
+	}
 	out.EnumTotal += len(fplan)
 	for i, f := range fplan {
 		if i%nw != w {
@@ -379,6 +396,8 @@ type KnownFinding struct {
 	Property string `json:"property"`
 	Rule     string `json:"rule"`
 	Match    string `json:"match"`
+	MatchAll []string `json:"match_all,omitempty"`
+	Exclude  []string `json:"exclude,omitempty"`
 	What     string `json:"what"`
 	Status   string `json:"status"`
 	Commit   string `json:"commit,omitempty"`
@@ -406,7 +425,17 @@ func matchKnown(known []KnownFinding, v ViolationOut) *KnownFinding {
 		if k.Status != "known" {
 			continue
 		}
-		if k.Property == v.Property && k.Rule == v.Rule && strings.Contains(v.Detail, k.Match) {
+		if k.Property != v.Property || k.Rule != v.Rule || !strings.Contains(v.Detail, k.Match) {
+			continue
+		}
+		ok := true
+		for _, m := range k.MatchAll {
+			ok = ok && strings.Contains(v.Detail, m)
+		}
+		for _, m := range k.Exclude {
+			ok = ok && !strings.Contains(v.Detail, m)
+		}
+		if ok {
 			return k
 		}
 	}
@@ -423,7 +452,81 @@ func tierBudget(prop, tier string) time.Duration {
 	return 20 * time.Second
 }
 
+// selfTest runs the same cases in fresh processes under different GOMAXPROCS
+// (and once more at the same setting) and demands identical trace hashes.
+func selfTest(verifDir, prop, tier string, seed uint64, n int, procs []int) (bool, string) {
+	var maps []map[string]string
+	var mu sync.Mutex
+	var wg sync.WaitGroup
+	fail := ""
+	for i, gmp := range procs {
+		wg.Add(1)
+		go func(i, gmp int) {
+			defer wg.Done()
+			dir, err := os.MkdirTemp(filepath.Join(verifDir, ".cache"), "self-")
+			if err != nil {
+				mu.Lock()
+				fail = err.Error()
+				mu.Unlock()
+				return
+			}
+			defer os.RemoveAll(dir)
+			cmd := exec.Command(os.Args[0], "-test.run", "^TestWorker$", "-test.count", "1", "-test.timeout", "0")
+			cmd.Env = append(os.Environ(), "VSIM_MODE=worker", "VSIM_WORKER=0", "VSIM_WORKERS=1", "VSIM_OUTDIR="+dir,
+				"VSIM_REPLAYDIR="+filepath.Join(dir, "replays"), "VSIM_HASHES=1", fmt.Sprintf("VSIM_MAXCASES=%d", n),
+				"VSIM_TIER="+tier, "VSIM_PROP="+prop, fmt.Sprintf("GOMAXPROCS=%d", gmp), fmt.Sprintf("VERIF_SEED=%d", seed),
+				"VSIM_ZONE=3", "VSIM_NOENUM=1")
+			var stderr bytes.Buffer
+			cmd.Stderr, cmd.Stdout = &stderr, &stderr
+			cmd.Run()
+			b, e := os.ReadFile(filepath.Join(dir, "worker-0.json"))
+			mu.Lock()
+			defer mu.Unlock()
+			if e != nil {
+				fail = fmt.Sprintf("self-test worker (GOMAXPROCS %d) produced no output: %s", gmp, stderr.String())
+				return
+			}
+			var o WorkerOut
+			json.Unmarshal(b, &o)
+			maps = append(maps, o.TraceHash)
+		}(i, gmp)
+	}
+	wg.Wait()
+	if fail != "" {
+		return false, fail
+	}
+	for i := 1; i < len(maps); i++ {
+		if len(maps[i]) != len(maps[0]) {
+			return false, fmt.Sprintf("self-test: %d vs %d cases", len(maps[i]), len(maps[0]))
+		}
+		for k, v := range maps[0] {
+			if maps[i][k] != v {
+				return false, fmt.Sprintf("self-test: case %s has trace hash %s in one process and %s in another", k, v, maps[i][k])
+			}
+		}
+	}
+	return true, fmt.Sprintf("%d cases x %d processes (GOMAXPROCS %v): identical trace hashes", len(maps[0]), len(maps), procs)
+}
+
+var selfTestNote string
+
 func driverMain() int {
+	if n := envInt("VSIM_SELFTEST", 0); n > 0 {
+		verifDir := os.Getenv("VSIM_VERIF")
+		if verifDir == "" {
+			verifDir = "/verif"
+		}
+		os.MkdirAll(filepath.Join(verifDir, ".cache"), 0o755)
+		rc := 0
+		for _, p := range []string{"C01", "C02", "C03", "C04", "C05", "C06", "C07", "C08", "C15", "C17"} {
+			ok, msg := selfTest(verifDir, p, "quick", envU64("VERIF_SEED", 1), n, []int{1, 4, 16, 4})
+			fmt.Printf("selftest %s: ok=%v %s\n", p, ok, msg)
+			if !ok {
+				rc = 2
+			}
+		}
+		return rc
+	}
 	prop := os.Getenv("VSIM_PROP")
 	tier := os.Getenv("VSIM_TIER")
 	if tier == "" {
@@ -522,6 +625,16 @@ func driverMain() int {
 			}
 		}
 	}
+	// determinism self-test on this property's own cases
+	stN, stProcs := 150, []int{1, 16}
+	if tier == "thorough" {
+		stN, stProcs = 2000, []int{1, 4, 16, 16}
+	}
+	stOK, stMsg := selfTest(verifDir, prop, tier, seed, stN, stProcs)
+	if !stOK {
+		harness = append(harness, "determinism "+stMsg)
+	}
+	selfTestNote = stMsg
 	// race mode (C05 only)
 	raceNote := ""
 	var raceStats map[string]interface{}
@@ -541,7 +654,11 @@ func driverMain() int {
 	sort.Slice(allViol, func(i, j int) bool { return allViol[i].Replay < allViol[j].Replay })
 	for _, v := range allViol {
 		if k := matchKnown(known, v); k != nil {
-			knownHit[k.Property+"/"+k.Rule+"/"+k.Match] = k
+			key := k.Property + "/" + k.Rule + "/" + k.Match + strings.Join(k.MatchAll, "+")
+			if _, dup := knownHit[key]; dup || !strings.Contains(v.Replay, "-race-") {
+				os.Remove(v.Replay) // listed finding: one report file per entry is enough
+			}
+			knownHit[key] = k
 			continue
 		}
 		unknown++
@@ -669,6 +786,7 @@ func writeEvidence(verifDir, prop, tier string, seed uint64, total *WorkerOut, d
 	if race != nil {
 		cov["race_mode"] = race
 	}
+	cov["determinism_self_test"] = selfTestNote
 	if len(total.Samples) == 0 {
 		cov["samples"] = []interface{}{"no non-trivial case was produced in this run"}
 	}
